@@ -65,6 +65,11 @@ pub enum Family {
     /// n buffers, n small helpers behind one shared fan-out helper, n entry points each touching
     /// its own buffer: hundreds of declarations, call depth 3.
     KernelLib { n: u32 },
+    /// Many globals AND a deep call graph: `globals` uniform bindings read by eight leaf helpers,
+    /// a shared helper calling all leaves, `helpers` fan-out helpers calling the shared one twice,
+    /// and a diamond chain of `depth` levels with `fan` calls per level on top. Propagating
+    /// "which globals does this function reach" must not cost depth x call sites x globals^2.
+    GlobalsGraph { depth: u32, fan: u32, globals: u32, helpers: u32 },
     /// Small programs with huge NUMBERS in them: binding and group indices near u32::MAX, array
     /// lengths in the hundreds of millions, large workgroup sizes and override ids. Cost must
     /// follow the size of the text, not the magnitude of its literals.
@@ -80,6 +85,7 @@ impl Family {
             Family::Diamond { ptr_args: true, .. } => "diamond_ptr_args",
             Family::KernelLib { .. } => "kernel_library",
             Family::Magnitude { .. } => "huge_literals",
+            Family::GlobalsGraph { .. } => "globals_x_call_graph",
             Family::Chain { pure_helpers: true, .. } => "chain_pure",
             Family::Diamond { pure_helpers: true, .. } => "diamond_pure",
             Family::Dag { pure_helpers: true, .. } => "layered_dag_pure",
@@ -107,6 +113,7 @@ impl Family {
             | Family::Diamond { depth, .. }
             | Family::Dag { depth, .. }
             | Family::Decls { depth, .. }
+            | Family::GlobalsGraph { depth, .. }
             | Family::Types { depth, .. } => *depth,
             Family::Fanout { .. } => 1,
             Family::Flat { .. } => 0,
@@ -123,6 +130,7 @@ impl Family {
             | Family::Diamond { depth, .. }
             | Family::Dag { depth, .. }
             | Family::Decls { depth, .. }
+            | Family::GlobalsGraph { depth, .. }
             | Family::Types { depth, .. } => *depth = d,
             Family::KernelLib { n } => *n = d,
             _ => {}
@@ -419,6 +427,49 @@ pub fn source(family: &Family) -> String {
                 depth / 2
             );
         }
+        Family::GlobalsGraph { depth, fan, globals, helpers } => {
+            let g = (*globals).max(8);
+            for i in 0..g {
+                let _ = writeln!(out, "@group({}) @binding({}) var<uniform> gu{i}: vec4<f32>;", i / 64, i % 64);
+            }
+            for leaf in 0..8u32 {
+                let _ = writeln!(out, "fn leaf{leaf}(x: f32) -> f32 {{\n    var r = x;");
+                let mut i = leaf;
+                while i < g {
+                    let _ = writeln!(out, "    r = r + gu{i}.x;");
+                    i += 8;
+                }
+                let _ = writeln!(out, "    return r;\n}}");
+            }
+            let _ = writeln!(out, "fn all_leaves(x: f32) -> f32 {{\n    var r = x;");
+            for leaf in 0..8 {
+                let _ = writeln!(out, "    r = r + leaf{leaf}(r);");
+            }
+            let _ = writeln!(out, "    return r;\n}}");
+            for h in 0..*helpers {
+                let _ = writeln!(out, "fn fanh{h}(x: f32) -> f32 {{\n    return all_leaves(x) + all_leaves(x * 0.5);\n}}");
+            }
+            let _ = writeln!(out, "fn dm0(x: f32) -> f32 {{\n    var r = all_leaves(x);");
+            for h in 0..*helpers {
+                let _ = writeln!(out, "    r = r + fanh{h}(r);");
+            }
+            let _ = writeln!(out, "    return r;\n}}");
+            for level in 1..=*depth {
+                let _ = writeln!(out, "fn dm{level}(x: f32) -> f32 {{\n    var r = x;");
+                for site in 0..(*fan).max(1) {
+                    let _ = writeln!(out, "    r = r + dm{}(r + {site}.0);", level - 1);
+                }
+                let _ = writeln!(out, "    return r;\n}}");
+            }
+            let _ = writeln!(
+                out,
+                "@vertex\nfn vs_main() -> @builtin(position) vec4<f32> {{\n    return vec4<f32>(dm{depth}(1.0));\n}}"
+            );
+            let _ = writeln!(
+                out,
+                "@fragment\nfn fs_main() -> @location(0) vec4<f32> {{\n    return vec4<f32>(dm{depth}(2.0));\n}}"
+            );
+        }
         Family::Magnitude { bindings, seed } => {
             let mut rng = Rng::new(*seed);
             let big = |rng: &mut Rng| -> u64 {
@@ -443,6 +494,27 @@ pub fn source(family: &Family) -> String {
                 );
             }
             let _ = writeln!(out, "@id(65535) override mg_ov: f32 = 1.0;\nconst MG_BIG: u32 = 4294967295u;");
+            // large enough for a per-unit loop to take seconds, small enough for naga's validator
+            // (a bit set indexed by location) to stay around a tenth of a second
+            let loc = |rng: &mut Rng| 1_200_000_000 + rng.below(100_000_000);
+            let _ = writeln!(
+                out,
+                "struct MgFragOut {{\n    @location(0) color: vec4<f32>,\n    @location({}) extra: vec4<f32>,\n}}",
+                loc(&mut rng)
+            );
+            let _ = writeln!(
+                out,
+                "struct MgVertIn {{\n    @location(3) near: vec4<f32>,\n    @location({}) far: vec4<f32>,\n}}",
+                loc(&mut rng)
+            );
+            let _ = writeln!(
+                out,
+                "@vertex\nfn vs_main(v: MgVertIn) -> @builtin(position) vec4<f32> {{\n    return v.near + v.far;\n}}"
+            );
+            let _ = writeln!(
+                out,
+                "@fragment\nfn fs_main() -> MgFragOut {{\n    var o: MgFragOut;\n    o.color = vec4<f32>(1.0);\n    o.extra = vec4<f32>(2.0);\n    return o;\n}}"
+            );
             let _ = writeln!(
                 out,
                 "@compute @workgroup_size(1024, 1, 1)\nfn cs_main() {{\n    let a = mg0.small.x * mg_ov + f32(MG_BIG);\n}}"
@@ -748,6 +820,9 @@ pub fn systematic_families() -> Vec<Family> {
     for (bindings, seed) in [(1, 1), (4, 2), (16, 3), (64, 4)] {
         v.push(Family::Magnitude { bindings, seed });
     }
+    for (depth, fan, globals, helpers) in [(4, 2, 16, 4), (16, 3, 64, 24), (48, 4, 256, 96), (64, 2, 400, 150)] {
+        v.push(Family::GlobalsGraph { depth, fan, globals, helpers });
+    }
     for (functions, structs, bindings) in [(10, 2, 2), (60, 10, 8), (200, 30, 16), (400, 60, 16)] {
         v.push(Family::Flat { functions, structs, bindings });
     }
@@ -773,6 +848,12 @@ pub fn random_family(rng: &mut Rng) -> Family {
         },
         4 if rng.chance(300) => Family::KernelLib {
             n: rng.range(1, 400) as u32,
+        },
+        4 if rng.chance(300) => Family::GlobalsGraph {
+            depth: rng.range(1, 64) as u32,
+            fan: rng.range(1, 4) as u32,
+            globals: rng.range(8, 400) as u32,
+            helpers: rng.range(0, 150) as u32,
         },
         4 if rng.chance(300) => Family::Magnitude {
             bindings: rng.range(1, 64) as u32,
